@@ -312,4 +312,111 @@ structure World.WF (w : World) : Prop where
   targets : ∀ p ∈ w.procs, ∀ fds, p.2 = some fds → ∀ e ∈ fds, e.2.WF
   v6 : w.v6 = false → ∀ s ∈ w.socks, s.fam ≠ .inet6
 
+/-! ## Descriptors and processes that cannot be inspected
+
+  Between `listdir` and `readlink` a descriptor may be closed, its process may exit or change
+  owner; other users' processes cannot be listed at all (proc(5): `/proc/<pid>/fd` is readable by
+  the owner only; `readlink` there needs ptrace access to the *task*, so a denial concerns the whole
+  process). The promise: such a descriptor / process contributes no holder — its sockets are
+  still reported, with the holders that can be seen or with `pid None, fd -1` — and the system-wide
+  call does not fail. -/
+
+inductive TargetE
+  | sock (inode : Nat)
+  | other (text : Bytes)
+  | fail (e : Errno)        -- `readlink` fails with this errno
+  deriving DecidableEq, Repr
+
+structure WorldE where
+  socks : List Sock
+  /-- per listed PID: its descriptors in listing order, or the errno `listdir` fails with -/
+  procs : List (Nat × Except Errno (List (Nat × TargetE)))
+  v6 : Bool
+
+/-- the descriptor is not there any more (closed, process gone) or is not a link -/
+def errVanished : Errno → Bool
+  | .enoent | .esrch | .einval | .enametoolong => true
+  | _ => false
+
+/-- access denied: the process is not ours (any more) -/
+def errDenied : Errno → Bool
+  | .eacces | .eperm => true
+  | _ => false
+
+/-- `listdir`: the process is gone or not ours -/
+def errUnlistable : Errno → Bool
+  | .enoent | .esrch | .eacces | .eperm => true
+  | _ => false
+
+def TargetE.view : TargetE → Target
+  | .sock i => .sock i
+  | .other t => .other t
+  | .fail _ => .gone
+
+/-- is one of the descriptors of the process denied to us? -/
+def deniedIn (fds : List (Nat × TargetE)) : Bool :=
+  fds.any fun x => match x.2 with
+    | .fail e => errDenied e
+    | _ => false
+
+/-- what can be seen of a process: nothing if it cannot be listed or is denied to us,
+    otherwise its descriptors (the failing ones count as vanished) -/
+def viewProc : Except Errno (List (Nat × TargetE)) → Option (List (Nat × Target))
+  | .error _ => none
+  | .ok fds => if deniedIn fds then none else some (fds.map fun x => (x.1, x.2.view))
+
+/-- the world as far as it can be inspected: this is what the promise (`expects`) is about -/
+def WorldE.view (w : WorldE) : World :=
+  ⟨w.socks, w.procs.map (fun p => (p.1, viewProc p.2)), w.v6⟩
+
+/-- every failure is one of the "cannot be inspected" outcomes above (no EIO, EMFILE, ENOMEM …) -/
+def WorldE.Inspectable (w : WorldE) : Prop :=
+  ∀ p ∈ w.procs, match p.2 with
+    | .error e => errUnlistable e = true
+    | .ok fds => ∀ x ∈ fds, ∀ e, x.2 = .fail e → (errVanished e || errDenied e) = true
+
+/-- executable form of `Inspectable` for one descriptor table (used by the driver) -/
+def fdsInspectable (fds : List (Nat × TargetE)) : Bool :=
+  fds.all fun x => match x.2 with
+    | .fail e => errVanished e || errDenied e
+    | _ => true
+
+/-- executable form of `WorldE.Inspectable` (used by the driver) -/
+def WorldE.inspectable (w : WorldE) : Bool :=
+  w.procs.all fun p => match p.2 with
+    | .error e => errUnlistable e
+    | .ok fds => fdsInspectable fds
+
+/-- the per-process form speaks about a process whose descriptors can be listed and none of
+    which is denied or fails otherwise than by vanishing -/
+def ownClean (w : WorldE) (p : Nat) : Bool :=
+  match w.procs.lookup p with
+  | some (.ok fds) => fds.all fun x => match x.2 with
+      | .fail e => errVanished e
+      | _ => true
+  | _ => false
+
+def renderTargetE : TargetE → LinkRes
+  | .sock i => .ok (lit "socket:[" ++ renderDec i ++ [93])
+  | .other t => .ok t
+  | .fail e => .err e
+
+/-- the procfs content psutil reads, with the failing system calls -/
+def renderWorldE (le : Bool) (w : WorldE) : ProcFsE where
+  net := (renderWorld le w.view).net
+  procs := w.procs.map fun p =>
+    (p.1, match p.2 with
+          | .error e => .error e
+          | .ok fds => .ok (fds.map fun x => (x.1, renderTargetE x.2)))
+
+/-! ## A Python that cannot format IPv6 addresses
+
+  `socket.inet_ntop(AF_INET6, …)` raises ValueError and `supports_ipv6()` is false. An address has
+  to be formatted only when its port is not 0 (port 0 ⇒ empty address). Promise: the sockets whose
+  row needs an IPv6 text are left out, every other socket is reported as usual. -/
+
+def needsV6Text (s : Sock) : Bool := s.fam == .inet6 && (s.lport != 0 || s.rport != 0)
+
+def World.dropV6 (w : World) : World := { w with socks := w.socks.filter fun s => !needsV6Text s }
+
 end Psutil.C11.Spec
